@@ -119,7 +119,7 @@ Definition c03_check (c : c03_case) : bool :=
                | Some (c, zlen, plen) =>
                    match coded_read (dec_by_len c zlen plen) h3w_clean (d, r) with
                    | Some p => h3w_clean r' && (N.of_nat (length p) =? dlen)%N && pok
-                   | None => negb (h3w_clean r')
+                   | None => negb (h3w_clean r') || (h3w_clean r && prefix_verdict_unknown c zlen d && pok)
                    end
                end
         | _, _ => false
@@ -147,7 +147,7 @@ Definition c03_check (c : c03_case) : bool :=
                | Some (c, zlen, plen) =>
                    match coded_read (dec_by_len c zlen plen) h2_clean (d, e) with
                    | Some p => h2_clean e' && (N.of_nat (length p) =? dlen)%N && pok
-                   | None => negb (h2_clean e')
+                   | None => negb (h2_clean e') || (h2_clean e && prefix_verdict_unknown c zlen d && pok)
                    end
                end
         | _, _ => false
